@@ -814,13 +814,19 @@ impl Store {
             }
             (Some(ValueEntry::Cas(current, _)), ValueEntry::Cas(val, v), true) => {
                 // cas value present, we can insert new cas value if insertion is forced
-                Ok((true, current != &val, ValueEntry::Cas(val, v + 1)))
+                match v.checked_add(1) {
+                    Some(next) => Ok((true, current != &val, ValueEntry::Cas(val, next))),
+                    None => Err(StoreError::CasVersionMismatch),
+                }
             }
             (Some(ValueEntry::Cas(current, v_curr)), ValueEntry::Cas(val, v), false)
                 if v_curr == &v =>
             {
                 // cas value present, we can insert new cas value if the version matches
-                Ok((true, current != &val, ValueEntry::Cas(val, v + 1)))
+                match v.checked_add(1) {
+                    Some(next) => Ok((true, current != &val, ValueEntry::Cas(val, next))),
+                    None => Err(StoreError::CasVersionMismatch),
+                }
             }
             (Some(ValueEntry::Cas(_, _)), ValueEntry::Cas(_, _), false) => {
                 // cas value present, we cannot insert cas value if versions do not match and insertion is not forced
